@@ -87,7 +87,7 @@ static std::unique_ptr<STr> stracers[NTR + 1];
 static int do_call(int m, int f, int a, int b)
 {
   if (m == NM_ID) return nmock->f(a);
-  if (m == WM_ID) return wmock->f(a);
+  if (m == WM_ID) return static_cast<IFace&>(*wmock).f(a);
   switch (f) {
   case 1: return mocks[m]->f(a);
   case 2: return mocks[m]->f(std::string("s") + std::to_string(a));
